@@ -49,6 +49,16 @@ def obligations(tier):
         obs.append(dict(name="sockaddr-prettyprint-resolves-back-%s-len%d-portdigits%d" % ({4: "ipv4", 6: "ipv6", 1: "unix"}[fam], nt, pd), harness="../C15/sockaddr.c", entry="h_pretty", defs=["FAM=%d" % fam, "NTLEN=%d" % nt, "PDIG=%d" % max(pd, 1)], vsrcs=["models/stub_warnp.c"], replace=["sock_resolve_host:stub_host"], unwind=(115 if fam == 1 else max(nt + 12, 40)), timeout=to, flags=["--object-bits", "10"],
                         claim="sock_addr_prettyprint of an arbitrary %s address (port 1..65535) followed by sock_resolve gives back exactly one address equal to the original (inet_pton taken as the inverse of inet_ntop on its own output, literal of %d characters)" % ({4: "IPv4", 6: "IPv6", 1: "Unix-path"}[fam], nt),
                         bounds="literal / path length %d, every port with %d decimal digits" % (nt, pd), stubs=SST))
+    for nlst in (0, 1, 2):
+        obs.append(dict(name="sockaddr-duplist-n%d" % nlst, harness="../C15/sockaddr.c", entry="h_duplist", defs=["NLIST=%d" % nlst, "NAMELEN=16"], vsrcs=["models/stub_warnp.c"], unwind=20, timeout=to, flags=["--memory-leak-check"],
+                        claim="sock_addr_duplist of a list of %d addresses: a NULL-terminated list of the same length whose elements are fresh copies, in order; nothing leaked" % nlst, bounds="%d addresses of 16 bytes" % nlst, stubs=["warn -> empty"]))
+    for nres in (1, 2, 3):
+        obs.append(dict(name="sock-resolve-one-n%d" % nres, harness="../C15/sockaddr.c", entry="h_resolve_one", defs=["NRES=%d" % nres], vsrcs=["models/stub_warnp.c"], replace=["sock_resolve:stub_resolve", "sock_resolve_host:stub_host"], unwind=20, timeout=to, flags=["--memory-leak-check"],
+                        claim="sock_resolve_one: the first of the %d resolved addresses is returned, every other address and the list are released; NULL when resolution fails" % nres, bounds="%d addresses" % nres, stubs=["sock_resolve -> scripted list", "warn -> empty"]))
+    for lo, hi in [(0, 4), (5, 5), (6, 6)]:
+        obs.append(dict(name="sock-ensure-port-len%d-%d" % (lo, hi), harness="../C15/sockaddr.c", entry="h_ensure_port", defs=["MINL=%d" % lo, "MAXL=%d" % hi], vsrcs=["models/stub_warnp.c"], replace=["sock_resolve_host:stub_host"], unwind=max(hi + 4, 18), timeout=to, flags=["--object-bits", "10"],
+                        claim="sock_addr_ensure_port on every string of %d..%d characters in an exact-size object: reads only the string; returns the string unchanged if it starts with ':' or '/', is an unbracketed text containing ':', or a bracketed text whose last ':' follows ']'; otherwise with \":0\" appended; exact-size result" % (lo, hi),
+                        bounds="length %d..%d, all byte values" % (lo, hi), stubs=SST))
     return obs
 
 TRUSTED = ["CBMC 6.11 C semantics and its string.h models (strchr, memcmp)", "cadical SAT solver", "refs/ref_codec.h (RFC 4648 / hex reference written from the RFC text)"]
